@@ -479,7 +479,7 @@ def only_grid_or_requested(I, T):
     return z3.Implies(T.inrange(k), z3.Or(*alts))
 
 
-def separated(I, T):
+def separated(I, T, with_hypothesis=True):
     """No requested evaluation time e is matched by two distinct target times (matcher of the backends:
     |t/D - e| <= 1e-10) -- also when other requested times lie within the tolerance of e (they are the same
     request to the matcher) -- provided the neighbourhood of e is consistent for a tolerance matcher:
@@ -542,8 +542,32 @@ def separated(I, T):
         for j in js[n + 1:]:
             _use(I, stmt_int_gap, i, j, dt)
     match = lambda y: _absz(y / D - e) <= TOLZ
-    hyp = z3.And(E.P(e), a >= 0, a < b, b < T.length, *pr)
-    return z3.Implies(hyp, z3.Not(z3.And(match(ya), match(yb))))
+    base = z3.And(E.P(e), a >= 0, a < b, b < T.length)
+    concl = z3.Not(z3.And(match(ya), match(yb)))
+    if not with_hypothesis:
+        # the instances of H(e) are kept for the region of the known finding (same Skolem e, a, b)
+        I.ctx.ghost["separation_H_instances"] = pr
+        return z3.Implies(base, concl)
+    return z3.Implies(z3.And(base, *pr), concl)
+
+
+def separated_everywhere(I, T):
+    """Separation for EVERY requested time e, without the hypothesis H(e) of `separated`.  It does not hold:
+    known finding F20 (region `in_chain`)."""
+    return separated(I, T, with_hypothesis=False)
+
+
+def in_chain(I, T):
+    """Region of known finding F20 = not H(e) for the requested time e of `separated_everywhere` (shared Skolem
+    constant): e lies in a chain p ~ e ~ p' -- p, p' requested or grid times within the tolerance of e -- with
+    |p - p'| > tolerance (hence in (tol, 2 tol]).  not H(e) is an existential statement; it is represented by the
+    disjunction of its instances at the only candidates that matter (p, p' among the two target times that match
+    e, resp. their requested pre-images): every such instance is a genuine chain at e, so 'the clause can only
+    fail where this disjunction holds' implies 'it can only fail inside the region'."""
+    pr = I.ctx.ghost.get("separation_H_instances")
+    if pr is None:
+        raise Unsupported("in_chain(...) is the region of separated_everywhere(...): evaluate that clause first")
+    return z3.Not(z3.And(*pr)) if pr else False
 
 
 # ---------------------------------------------------------------------------------------------
@@ -713,6 +737,8 @@ def _setup_target_times(I, fr):
     cfg.fields["__requested__"] = E
     fr.locals.update(sequence=seq, config=cfg, dt=dt, D=D, N=z3.ToInt(D / dt), TOL=TOL)
     ctx.ghost["timegrid"] = dict(E=E, D=D, dt=dt)
+    # counterexample search only (pyvc/session.py): with a fixed duration and step the products e*D, i*dt are linear
+    ctx.ghost["sat_hints"] = [D == 1, dt == to_z3(Fraction(1, 4))]
 
 
 def register(reg, prop="C21"):
@@ -721,6 +747,7 @@ def register(reg, prop="C21"):
     reg.add_class("EmulationConfig", module=None, fields={})
     reg.ghost_funcs.update(has=has, every_requested_matched=every_requested_matched,
                            only_grid_or_requested=only_grid_or_requested, separated=separated,
+                           separated_everywhere=separated_everywhere, in_chain=in_chain,
                            kept_from=kept_from, kept_last=kept_last, kept_apart=kept_apart,
                            kept_covers=kept_covers)
     none = lambda I, n: None
@@ -795,6 +822,11 @@ TARGET_TIME_CLAUSES = {
     "separation": dict(props=("C14",), invariants=("from", "last", "apart"), ensures=[
         # no requested time is matched by two target times
         ("separation", "separated(result)"),
+    ]),
+    "separation-all": dict(props=("C14",), invariants=("from", "last", "apart"), ensures=[
+        # ... for EVERY requested time (no hypothesis): fails only inside the region in_chain(result) of the open
+        # known finding F20 (known_findings.json); a failure outside it is a violation as usual
+        ("separation-without-chain-hypothesis", "separated_everywhere(result)"),
     ]),
 }
 
